@@ -75,6 +75,13 @@ def run_history(events, store_kind="local", keep_dir=False, hashseed="0", extra_
                 cur_prog["modules"][act["mod"]]["vars"][act["name"]] = act["value"]
             elif act["a"] == "reprog":
                 cur_prog = copy.deepcopy(act["prog"])
+            elif act["a"] == "subprocess":
+                # another process works on the same store meanwhile: for the model its calls are just further calls
+                for inner in act["actions"]:
+                    if inner["a"] not in ("setvar", "rawfile", "reprog"):
+                        model_actions.append(action_coq(act["prog"], inner))
+                    records.append({"act": inner, "other_process": True})
+                continue
             elif act["a"] != "rawfile":
                 model_actions.append(action_coq(cur_prog, act))
             records.append({"act": act})
@@ -95,11 +102,16 @@ def run_history(events, store_kind="local", keep_dir=False, hashseed="0", extra_
         if cwd:
             wd = os.path.join(root, cwd)
             os.makedirs(wd, exist_ok=True)
-        impl_out += C.run_driver("drive_prog.py", payload, hashseed=hashseed, extra_env=extra_env, cwd=wd)
+        def flat(outs):
+            res = []
+            for o in outs:
+                res += o["sub"] if "sub" in o else [o]
+            return res
+        impl_out += flat(C.run_driver("drive_prog.py", payload, hashseed=hashseed, extra_env=extra_env, cwd=wd))
         if run_ref:
-            ref_out += C.run_driver("drive_prog.py", dict(payload, nodds=True, kept_file=kept_file))
+            ref_out += flat(C.run_driver("drive_prog.py", dict(payload, nodds=True, kept_file=kept_file)))
         else:
-            ref_out += [{"out": None, "log": []} for _ in seg["actions"]]
+            ref_out += [{"out": None, "log": []} for a in seg["actions"] for _ in (a["actions"] if a["a"] == "subprocess" else [a])]
     do_model = bool(model_actions) and run_model
     model = C.coq_eval_strings(PRELUDE, ["run_history [" + "; ".join(model_actions) + "]"], label="hist", timeout=900)[0] if do_model else ""
     mouts = model.split(";") if do_model else []
